@@ -13,6 +13,7 @@ import (
 	"pgregory.net/rapid"
 
 	"verifh/ev"
+	"verifh/gen"
 )
 
 // ---------------------------------------------------------------------------
@@ -146,7 +147,14 @@ func drawURLString(t *rapid.T, label string, allowColon bool) string {
 func genC16(t *rapid.T) c16Case {
 	c := c16Case{Kind: rapid.SampledFrom([]string{"totp", "hotp"}).Draw(t, "kind"),
 		Issuer: drawURLString(t, "iss", false), Account: drawURLString(t, "acc", true), Algo: rapid.IntRange(0, 2).Draw(t, "algo")}
-	if rapid.Bool().Draw(t, "plainSecret") {
+	if rapid.IntRange(0, 5).Draw(t, "keySecret") == 0 {
+		// a real secret: the base32 text of a key of any of gen.Key's lengths (around the hash block sizes 64 / 128 and far
+		// beyond) in any spelling — the URL carries the text as given, whatever key it spells
+		c.Secret = gen.Spell(gen.Key().Draw(t, "secretKey"), gen.DrawSpelling(t))
+		if strings.TrimSpace(c.Secret) == "" {
+			c.Secret = "AA======"
+		}
+	} else if rapid.Bool().Draw(t, "plainSecret") {
 		c.Secret = rapid.SampledFrom([]string{"JBSWY3DPEHPK3PXP", "MFRGGZDFMZTWQ2LK====", "jbswy3dpehpk3pxp"}).Draw(t, "secretF")
 	} else {
 		c.Secret = drawURLString(t, "sec", true)
